@@ -22,6 +22,10 @@
 #include <errno.h>
 #include <stdlib.h>
 
+#ifdef XCRYPT_VERIF
+__thread _crypt_verif_sink_t _crypt_verif_sink;
+#endif
+
 /* The internal storage area within struct crypt_data is used as
    follows.  We don't know what alignment the algorithm modules will
    need for their scratch data, so give it the maximum natural
